@@ -52,7 +52,11 @@ func (p *PointProj) scalarMulGLV(p1 *PointProj, scalar *big.Int) *PointProj {
 	table[3].phi(p1)
 
 	// split the scalar, modifies +-p1, phi(p1) accordingly
-	k := ecc.SplitScalar(scalar, &curveParams.glvBasis)
+	// reduce the scalar modulo the group order first: the two halves are only short (and below the
+	// modulus of fr, in which they are stored) for a reduced scalar
+	var reduced big.Int
+	reduced.Mod(scalar, &curveParams.Order)
+	k := ecc.SplitScalar(&reduced, &curveParams.glvBasis)
 
 	if k[0].Sign() == -1 {
 		k[0].Neg(&k[0])
@@ -155,7 +159,11 @@ func (p *PointExtended) scalarMulGLV(p1 *PointExtended, scalar *big.Int) *PointE
 	table[3].phi(p1)
 
 	// split the scalar, modifies +-p1, phi(p1) accordingly
-	k := ecc.SplitScalar(scalar, &curveParams.glvBasis)
+	// reduce the scalar modulo the group order first: the two halves are only short (and below the
+	// modulus of fr, in which they are stored) for a reduced scalar
+	var reduced big.Int
+	reduced.Mod(scalar, &curveParams.Order)
+	k := ecc.SplitScalar(&reduced, &curveParams.glvBasis)
 
 	if k[0].Sign() == -1 {
 		k[0].Neg(&k[0])
